@@ -273,9 +273,12 @@ impl<'w> Exec for Exec13<'w> {
                 let obs = Obs::Built(Err(k1.clone()));
                 if k1 != k2 {
                     StepOut::fail(obs, viol("C13/result/error_kind".into(), idx, k2, k1))
-                } else if len_after != len_before {
-                    StepOut::fail(obs, viol("C13/failed_build_changed_cache".into(), idx, format!("{} entries", len_before), format!("{} entries", len_after)))
                 } else {
+                    if len_after != len_before {
+                        // not judged: an implementation may remember failures as long as later
+                        // builds are unaffected, which the twin comparison of every later build decides
+                        bump("observe.failed_build_changed_cache_len");
+                    }
                     StepOut::ok(obs)
                 }
             }
